@@ -14,6 +14,8 @@ CarrierMeta ==
                   [name |-> "elems", many |-> TRUE, decl |-> "Elem"] >>,
    Grp     |-> << [name |-> "items", many |-> TRUE, decl |-> "Def"] >>,
    Box     |-> << [name |-> "inner", many |-> FALSE, decl |-> "Cell"] >>,
+   Slot    |-> << [name |-> "val", many |-> FALSE, decl |-> "Value"] >>,
+   Plain   |-> << >>,
    Cell    |-> << >>, DefA |-> << >>, DefB |-> << >>, Use |-> << >>, UseList |-> << >>]
 
 Allowed(decl) ==
@@ -21,5 +23,6 @@ Allowed(decl) ==
     [] decl = "Def"    -> {"DefA", "DefB"}
     [] decl = "DefB"   -> {"DefB"}
     [] decl = "Cell"   -> {"Cell"}
-    [] decl = "Elem"   -> {"Pkg", "Grp", "Box", "DefA", "DefB", "Use", "UseList"}
+    [] decl = "Value"  -> {"Plain", "Cell"}      \* Value: Tag | Cell;  Tag is a match rule
+    [] decl = "Elem"   -> {"Pkg", "Grp", "Box", "Slot", "DefA", "DefB", "Use", "UseList"}
 =============================================================================
